@@ -40,11 +40,11 @@ def check_normaliser(ctx, F, path, ws, delims, inst):
         if m in ("contains", "find", "any") and c.target is not None:
             chars = consts.closure_arg_chars(F, b, c)
             if delims <= chars:
-                t = b.blocks[c.target]["t"]
-                if t[0] == "switch" and t[1][0] != "k" and t[1][1][0] == c.dest[0]:
+                sb_, t = b.switch_on(c.dest[0], c.target)
+                if t is not None:
                     false_t = [tgt for v, tgt in t[2] if v == "0"]
                     if false_t:
-                        tests.append((c, c.target, false_t[0], t[3]))
+                        tests.append((c, sb_, false_t[0], t[3]))
     transforming = [c for c in b.calls() if id_through(c) is None and c.path.rsplit("::", 1)[-1] not in ("contains", "find", "any", "is_empty", "len")]
     for c in transforming:
         m = c.path.rsplit("::", 1)[-1]
